@@ -282,9 +282,13 @@ def a64_instruction(draw):
     if shape == 0:
         pass
     elif shape == 1:
-        lab = draw(st.sampled_from([".L1", ".LBB0_3", "foo", "loop2", ".L_end"]))
+        # label names that begin with a shift/extend keyword or a condition code are labels all the same
+        lab = draw(st.sampled_from([".L1", ".LBB0_3", "foo", "loop2", ".L_end", "lsl_done", "ror.L4", "asr1", "sxtw_l",
+                                    "uxtb2", "lsr_x", "le_loop", "ne.L4", "HI_table", "eq2", "mul_vl", "ge_", "mi.x"]))
         if draw(st.booleans()):
             ops.append(draw(a64_register()))
+            if draw(st.integers(0, 3)) == 0:
+                ops.append(draw(a64_immediate()))  # tbz/tbnz: register, bit number, label
         ops.append((["id", lab], lab))
     else:
         nreg = draw(st.integers(1, 3))
